@@ -130,13 +130,128 @@ def refresh_makefile():
             raise RuntimeError("coq_makefile failed:\n" + out)
 
 
-def make(targets, timeout=3000, jobs=NCPU):
-    """make the given .vo targets (paths relative to coq/). Returns (ok, log)."""
+def make_all(args, timeout=7000, jobs=NCPU):
+    """Full project build through coq_makefile + make (used by setup only; global lock)."""
     with Lock():
         refresh_makefile()
-        t = " ".join(targets)
+        t = " ".join(args)
         rc, out = sh(f"timeout {timeout} make -j{jobs} {t} 2>&1", cwd=COQ, timeout=timeout + 30)
     return rc == 0, out
+
+
+COQFLAGS = "-Q theories Verif -w -notation-overridden,-deprecated-hint-without-locality,-deprecated-instance-without-locality,-deprecated-hint-rewrite-without-locality"
+
+
+def _coqdep():
+    """Dependency graph of all .v files: {rel .v path: [rel .v paths it requires]} (pure read, ~1 s)."""
+    files = all_v_files()
+    rc, out = sh("coqdep -Q theories Verif " + " ".join(files) + " 2>/dev/null", cwd=COQ, timeout=300)
+    deps = {f: [] for f in files}
+    fs = set(files)
+    for line in out.split("\n"):
+        if ".vo" not in line or ":" not in line:
+            continue
+        lhs, rhs = line.split(":", 1)
+        tgt = lhs.split()[0]
+        if not tgt.endswith(".vo"):
+            continue
+        v = tgt[:-1]
+        if v not in fs:
+            continue
+        for d in rhs.split():
+            if d.endswith(".vo") and d[:-1] in fs and d[:-1] != v:
+                deps[v].append(d[:-1])
+    return deps
+
+
+class FileLock:
+    """Per-file flock so that two runs never compile the same .v at the same time."""
+
+    def __init__(self, rel):
+        d = os.path.join(COQ, ".locks")
+        os.makedirs(d, exist_ok=True)
+        self.path = os.path.join(d, rel.replace("/", "__") + ".lock")
+
+    def __enter__(self):
+        self.f = open(self.path, "w")
+        fcntl.flock(self.f, fcntl.LOCK_EX)
+        return self
+
+    def __exit__(self, *a):
+        fcntl.flock(self.f, fcntl.LOCK_UN)
+        self.f.close()
+
+
+def _mtime(p):
+    try:
+        return os.stat(p).st_mtime_ns
+    except OSError:
+        return None
+
+
+def make(targets, timeout=3000, jobs=NCPU):
+    """Bring the given .vo targets (paths relative to coq/, e.g. theories/Props/C18.vo) up to date:
+    coqdep for the graph, then coqc (full .vo, never -vos) on every out-of-date file below the targets, in
+    dependency order, independent files in parallel.  No global lock: runs for different properties do not
+    wait for each other; a per-file lock prevents double compilation.  Returns (ok, log)."""
+    t_end = time.time() + timeout
+    deps = _coqdep()
+    want = []
+    for t in targets:
+        v = t[:-1] if t.endswith(".vo") else t
+        if v not in deps:
+            return False, f"[verif] unknown target {t}"
+        want.append(v)
+    # transitive closure
+    need, stack = set(), list(want)
+    while stack:
+        v = stack.pop()
+        if v in need:
+            continue
+        need.add(v)
+        stack.extend(deps[v])
+    log = []
+    done = {}      # v -> True (ok) / False (failed)
+    rebuilt = set()
+
+    def build_one(v):
+        vo = os.path.join(COQ, v + "o")
+        src = os.path.join(COQ, v)
+        with FileLock(v):
+            mvo = _mtime(vo)
+            stale = mvo is None or mvo < _mtime(src) or any(
+                (_mtime(os.path.join(COQ, d + "o")) or 0) > mvo for d in deps[v]) or any(d in rebuilt for d in deps[v])
+            if not stale:
+                return True, ""
+            left = max(30, int(t_end - time.time()))
+            rc, out = sh(f"timeout {left} coqc {COQFLAGS} {v}", cwd=COQ, timeout=left + 30)
+            if rc != 0:
+                try:
+                    os.remove(vo)
+                except OSError:
+                    pass
+                return False, f"coqc {v} failed (rc={rc}):\n{out[-6000:]}"
+            rebuilt.add(v)
+            return True, out
+
+    remaining = set(need)
+    with ThreadPoolExecutor(max_workers=jobs) as ex:
+        while remaining:
+            ready = [v for v in remaining if all(d in done for d in deps[v])]
+            if not ready:
+                return False, "[verif] dependency cycle among " + ", ".join(sorted(remaining))
+            blocked = [v for v in ready if any(done[d] is False for d in deps[v])]
+            for v in blocked:
+                done[v] = False
+                remaining.discard(v)
+            ready = [v for v in ready if v not in blocked]
+            for v, (ok, out) in zip(ready, ex.map(build_one, ready)):
+                done[v] = ok
+                remaining.discard(v)
+                if out.strip():
+                    log.append(out)
+    ok = all(done.get(v) for v in want)
+    return ok, "\n".join(log)
 
 
 def write_if_changed(path, text):
@@ -238,7 +353,7 @@ class Ctx:
         if bad:
             raise RuntimeError(f"generated file {name} contains forbidden token {bad.group(0)!r}")
         path = os.path.join(GEN, name + ".v")
-        with Lock():
+        with FileLock(f"theories/Gen/{name}.v"):
             changed = write_if_changed(path, header + text)
         return changed
 
@@ -256,14 +371,15 @@ class Ctx:
             self.log(self.proof_log)
             return False
         target = f"theories/Props/{self.prop}.vo"
-        self.checker_cmd = (f"cd {COQ} && make -j{NCPU} {target} && coqc -Q theories Verif theories/Props/{self.prop}.v"
-                            "   (coq_makefile, full .vo build, coqc 8.16.1; Print Assumptions under every theorem)")
+        self.checker_cmd = (f"cd {COQ} && coqc -Q theories Verif <every out-of-date file below {target}, in coqdep order> && "
+                            f"coqc -Q theories Verif theories/Props/{self.prop}.v   (full .vo compilation, coqc 8.16.1; "
+                            "Print Assumptions under every theorem; whole project: coq_makefile + make in setup)")
         ok, out = make([target] + list(extra_targets), timeout=timeout)
         self.proof_log = out
         self.discharged = []
         if ok:
             # re-check the obligations file alone so that its Print Assumptions output is unambiguous
-            with Lock():
+            with FileLock(f"theories/Props/{self.prop}.v"):
                 rc, out2 = sh(f"timeout {timeout} coqc -Q theories Verif -w none theories/Props/{self.prop}.v",
                               cwd=COQ, timeout=timeout + 30)
             self.proof_log += "\n" + out2
